@@ -3,7 +3,7 @@ import os, json
 from concurrent.futures import ThreadPoolExecutor
 import vlib
 from vlib import Check
-from props import igslib
+from props import igslib, riplib
 
 SPEC = "spec/gfx"
 
@@ -21,6 +21,8 @@ def key(v, ev):
 
 
 def gen():
+    igslib.gen()
+    riplib.gen()
     return vlib.generate(SPEC, "MC_Gfx", "Gen_Gfx.cfg", os.path.join(vlib.GEN, "gfx_table.ndjson"))
 
 
@@ -51,13 +53,15 @@ def run():
     # the IGS lexer and loop engine: faithful model Igs.tla, observed through the cfg(icy_engine_verif) snapshot hook
     n_before = len(c.reports)
     igslib.run_into(c, c.tier == "thorough")
+    # the RIPscrip command lexer: faithful model Rip.tla (53 commands), observed through the same kind of hook
+    riplib.run_into(c, c.tier == "thorough")
     gfx_reports = c.reports[:n_before]
     c.extra["cases"] = sum(int(r.get("r4", 0)) for r in gfx_reports)
     c.extra["characters"] = sum(int(r.get("r5", 0)) for r in gfx_reports)
     c.extra["pictures_checked"] = sum(int(r.get("r6", 0)) for r in gfx_reports)
     c.extra["tlc_table_entries"] = n_table
     c.extra["worker_crashes"] = len(crashes)
-    c.extra["distinct_nontrivial"] = c.extra["cases"] + int(c.extra.get("igs_cases", 0))
+    c.extra["distinct_nontrivial"] = c.extra["cases"] + int(c.extra.get("igs_cases", 0)) + int(c.extra.get("rip_lexer_cases", 0))
     c.rule = ("the command x parameter-length table exported by TLC from Gfx.tla (every RIP level-0/1/9 command x lengths 0..24 x digits {0,1,Z}; every IGS command x 0..12 parameters from "
               "{-50,0,1,99999,319,5}), each with three terminators and seeded digit mixes, plus seeded random command streams (text, ANSI, continuation lines, text variables, loops, chained "
               "commands); each character is one recorded step (outcome, step time), pending IGS loop steps are polled, the exposed canvas is read after every command terminator and must hold "
@@ -65,8 +69,11 @@ def run():
               "IGS: Igs.tla is a deterministic character-level model of the lexer and the loop engine (TLC: totality, <= 1 executor call per character or poll, loops make progress, "
               "the lexer returns to Default after a terminator); the driver records the lexer snapshot (cfg hook) and every executor call after every character and every loop poll, "
               "Trace_Igs recomputes the step: property layer Outcome / ExecBound / StepTime / LoopProgress / Abort / Stall, model layer drift on the whole snapshot. "
-              "distinct_nontrivial = number of cases (both drivers).")
-    c.assumptions = ["step time limit 5 s, case watchdog 8 s on this machine", "the RIP parser state is tracked as the set of framing states the model allows; the IGS lexer state is read through the cfg(icy_engine_verif) snapshot hook"]
+              "RIP: Rip.tla is a deterministic character-level model of the command lexer and of every command's field automaton (53 commands as a data table; TLC: every self-ending "
+              "command executes after exactly its remaining digits, | and LF end every command, at most one command per character, no stall); Trace_Rip recomputes every step and compares "
+              "state, level, parameter_state, executed command text (to_rip_string) - model drift - while Outcome / StepTime / Abort / Stall decide the verdict. "
+              "distinct_nontrivial = number of cases (all three drivers).")
+    c.assumptions = ["step time limit 5 s, case watchdog 8 s on this machine", "the RIP and IGS lexer states are read through the cfg(icy_engine_verif) snapshot hooks (read-only)"]
     return c.finish()
 
 
